@@ -76,6 +76,9 @@ type Case struct {
 	Version   int     `json:"version"`   // index into versions
 	State     int     `json:"state"`     // 0 no key, 1 keyed encrypting, 2 keyed not encrypting
 	Salt      uint32  `json:"salt"`
+	// Last: the ad is the last thing in its message (no integer follows it), so whatever frame the
+	// serialiser's last attribute or type name leaves open is the one FinishMessage closes
+	Last bool `json:"last,omitempty"`
 }
 
 var versions = []*message.HTCondorVersion{nil, message.NewHTCondorVersion(9, 8, 9), message.NewHTCondorVersion(9, 9, 0),
@@ -196,9 +199,11 @@ func runCase(c Case) res {
 		r.viol = "sender refused the ad: " + err.Error()
 		return r
 	}
-	if err := msg.PutInt(kit.Bg, sentinel); err != nil {
-		r.viol = err.Error()
-		return r
+	if !c.Last {
+		if err := msg.PutInt(kit.Bg, sentinel); err != nil {
+			r.viol = err.Error()
+			return r
+		}
 	}
 	if err := msg.FinishMessage(kit.Bg); err != nil {
 		r.viol = err.Error()
@@ -307,7 +312,11 @@ func runCase(c Case) res {
 		}
 	}
 	// peer reconstruction (the receivers read MyType/TargetType, so only without NoTypes)
-	if noTypes {
+	// An ad sent without type names can only be read back when nothing follows it in the message, and only where
+	// strings travel in the plaintext layout (no key, or keyed but not encrypting - the state the statement is
+	// about): there the reader takes the two absent type names at the end of the message as empty. On an
+	// encrypting stream the library has no reader for such an ad, so nothing is demanded of it.
+	if noTypes && (!c.Last || c.State == 1) {
 		return r
 	}
 	for ri := 0; ri < 2; ri++ {
@@ -340,12 +349,14 @@ func runCase(c Case) res {
 				return r
 			}
 		}
-		if v, err := m.GetInt(kit.Bg); err != nil || v != sentinel {
-			r.viol = fmt.Sprintf("receiver %d lost framing after the ad (read %d, err %v)", ri, v, err)
-			return r
+		if !c.Last {
+			if v, err := m.GetInt(kit.Bg); err != nil || v != sentinel {
+				r.viol = fmt.Sprintf("receiver %d lost framing after the ad (read %d, err %v)", ri, v, err)
+				return r
+			}
 		}
 		if _, err := m.GetChar(kit.Bg); err != io.EOF {
-			r.viol = fmt.Sprintf("receiver %d: message does not end after the sentinel: %v", ri, err)
+			r.viol = fmt.Sprintf("receiver %d: message does not end after the ad/sentinel: %v", ri, err)
 			return r
 		}
 		lt := strings.ToLower(text)
@@ -399,7 +410,7 @@ func genName(t *rapid.T) string {
 func genCase(t *rapid.T) Case {
 	c := Case{Public: rapid.IntRange(0, 6).Draw(t, "public"), Options: rapid.IntRange(0, 63).Draw(t, "options"),
 		Whitelist: rapid.IntRange(0, 3).Draw(t, "whitelist"), Refs: rapid.IntRange(0, 2).Draw(t, "refs") == 0, Version: rapid.IntRange(0, 4).Draw(t, "version"),
-		State: rapid.IntRange(0, 2).Draw(t, "state"), Salt: rapid.Uint32().Draw(t, "salt")}
+		State: rapid.IntRange(0, 2).Draw(t, "state"), Salt: rapid.Uint32().Draw(t, "salt"), Last: rapid.Bool().Draw(t, "last")}
 	if rapid.Bool().Draw(t, "forceOptIn") {
 		c.Options |= int(message.PutClassAdIncludePrivate)
 		c.Options &^= int(message.PutClassAdNoPrivate)
@@ -468,7 +479,7 @@ func TestC09Exhaustive(t *testing.T) {
 			for ver := 0; ver < 5; ver++ {
 				for state := 0; state < 3; state++ {
 					for wl := 0; wl < 4; wl++ {
-						c := Case{Public: 2, Private: []PAttr{{Name: name}}, Options: opt, Version: ver, State: state, Whitelist: wl, Refs: (opt+ver+wl)%2 == 1, Salt: uint32(opt*100 + ver)}
+						c := Case{Public: 2, Private: []PAttr{{Name: name}}, Options: opt, Version: ver, State: state, Whitelist: wl, Refs: (opt+ver+wl)%2 == 1, Salt: uint32(opt*100 + ver), Last: (opt/2+ver+state+wl)%2 == 1}
 						r := runCase(c)
 						record(c, r)
 						report(c, r)
